@@ -162,6 +162,20 @@ def run(tier, seed, replay):
     # the handshake on whole apps (default authorization method): exactly the clients whose hash matches are authorized
     import simcheck
     rc, out = build_harness(["sim"])
+    # the hash is sent exactly once per connection: the channel it is declared on must be reliable.  If it is not, a legal backend
+    # may lose it: demonstrate on the real apps by dropping it (a drop on a reliable channel would not be a legal schedule)
+    kinds = run_lines(harness_bin("kernels"), ["chan_kinds"])[0]
+    rep.cov["declared_channel_kinds"] = kinds
+    ckinds = kinds.split(";")[0].split("=")[1].split(",") if kinds.startswith("C=") else []
+    if rc == 0 and len(ckinds) > 1 and ckinds[1] == "Unreliable" and not oracle_fail:
+        import simlib
+        demo = ["cfg policy=all auth=proto track=0 nclients=1 timeout=10000", "start", "sframe 0 10", "connect 0 1200", "cframe 0", "drop 0 c2s 1 all", "sop spawn 1 1 0=1"]
+        for _ in range(6):
+            demo += ["sframe 1 16", "deliver 0 s2c 0 all", "deliver 0 s2c 1 all", "deliver 0 s2c 2 all", "cframe 0", "deliver 0 c2s 0 all", "deliver 0 c2s 1 all"]
+        blocks = simlib.run_impl(demo)
+        if not any(l.startswith("authorized 0") for b in blocks for l in b):
+            oracle_fail.append(dict(request="\n".join(demo), implementation="the client is never authorized",
+                                    why="the protocol hash is declared on an UNRELIABLE channel (%s) and sent only once: its loss (dropped here, a legal schedule for that channel kind) leaves a client with the SAME protocol unauthorized for good" % kinds))
     if rc == 0:
         kws = [dict(auth="proto", nclients=2, events=True), dict(auth="proto", nclients=3, sessions=True, weights=dict(session=0.5)), dict(auth="proto", nclients=2, policy="white")]
         o2, d2 = simcheck.sim_collect(rep, "C14", tier, rng, seed, kws, 60, 6000, oracle_props={"C14"},
